@@ -65,10 +65,14 @@ type docGen struct {
 	markupText     bool   // some texts show markup as text (C05: nothing of it may come alive)
 	inlineJunk     bool   // inline formatting elements may hold hidden spans / scripts (C04)
 	blanksBetween  bool   // neighbouring inline elements are kept apart by a white-space text node between them (C03, C02, C09)
+	literalWords   bool   // words that are also element names, as the whole text of an inline element (C03)
+	litUsed        int    // how many of litMarkup this page has used
 	tightInline    bool   // words may continue across the edge of an inline element (C09)
 	mediaSeps      bool   // separator signs (text without a word) in front of media inside a line (C08)
 	noTitle        bool   // no <title> element (C09: the word-count clause needs pages without title)
 }
+
+var litMarkup = []string{"<code>style</code>", "<em>script</em>", "<b>head</b>", "<i>noscript</i>", "<span>link</span>", "<u>title</u>", "<code>body</code>"}
 
 func newDocGen(seed int64, id int) *docGen {
 	return &docGen{
@@ -358,6 +362,12 @@ func (g *docGen) render0(n *cnode) string {
 			// formatting elements sometimes carry things no reader sees: a hidden marker, a script
 			inner += g.pick(`<span hidden>`+g.words(2)+`</span>`, `<span style="display:none">`+g.words(2)+`</span>`,
 				`<script>var `+g.words(1)+`;</script>`, `<em hidden>`+g.words(1)+`</em>`)
+		}
+		if g.literalWords && g.rng.Intn(5) == 0 && g.litUsed < len(litMarkup) {
+			// an everyday word that happens to be the name of an element, as the whole text of an element of its own
+			// (each of them once per page: they are tracked like the unique words)
+			inner += " " + litMarkup[(g.litUsed+g.tok)%len(litMarkup)] + " "
+			g.litUsed++
 		}
 		st := ""
 		if g.tightInline && g.rng.Intn(4) == 0 {
